@@ -20,6 +20,7 @@ pub fn run_case(prop: &'static str, case: &Case) -> RunOut {
     let slot: Arc<Mutex<Option<RunOut>>> = Arc::new(Mutex::new(None));
     let slot2 = slot.clone();
     let case2 = case.clone();
+    crate::exec::ESCALATED.with(|e| *e.borrow_mut() = None);
     let sched = SeededScheduler::new(case.cfg.strategy.clone(), case.cfg.sched_seed);
     let mut config = shuttle::Config::new();
     config.stack_size = 1 << 20;
@@ -49,7 +50,9 @@ pub fn run_case(prop: &'static str, case: &Case) -> RunOut {
             };
             let loc = LAST_PANIC.with(|l| l.borrow().clone());
             let mut o = slot.lock().unwrap().take().unwrap_or_default();
-            if msg.contains("deadlock") {
+            if let Some(esc) = crate::exec::ESCALATED.with(|e| e.borrow_mut().take()) {
+                o = esc;
+            } else if msg.contains("deadlock") {
                 let p = if case.cfg.profile == crate::workload::Profile::Fault { "C11" } else { prop };
                 o.violations.push(Violation {
                     prop: p.to_string(),
